@@ -72,6 +72,10 @@ type wnFile struct {
 	uncertain bool // an operation on it was abandoned: no assertion about it
 	everCached bool // node 0 downloaded it at some point (it had a gc-index entry)
 	everUnpinned bool // it was unpinned at some point (unpinning enters a file into the gc index)
+	// have: the chunks of the file the node held when the file became known (a
+	// download only fetches the chunks it needs to serve the content; an upload
+	// writes all of them). "Stays readable" means these chunks stay.
+	have map[string]bool
 }
 
 type wnWorld struct {
@@ -171,10 +175,20 @@ func (w *wnWorld) exec1(phase int, o gosim.Op) {
 		pin := o.Arg(2) == 1
 		r.Logf("upload f=%d pin=%v", f.id, pin)
 		if err := w.uploadOn(w.n0, f, pin); err != nil {
-			r.Violate("upload-failed", "upload of file %d failed without any fault: %v", f.id, err)
+			// not what these properties are about: the file becomes uncertain
+			r.Logf("upload f=%d failed: %v", f.id, err)
+			r.Count("upload_failed")
+			w.mu.Lock()
+			f.uncertain = true
+			w.mu.Unlock()
+			return
 		}
 		w.mu.Lock()
 		f.local, f.deleted = true, false
+		f.have = map[string]bool{}
+		for _, c := range f.chunks {
+			f.have[c] = true
+		}
 		if pin {
 			f.pinned = true
 			f.uploadPin = true
@@ -205,9 +219,18 @@ func (w *wnWorld) exec1(phase int, o gosim.Op) {
 			if !bytes.Equal(body, f.content) {
 				r.Violate("wrong-content", "download of file %d returned %d bytes that differ from the uploaded content (%d bytes)", f.id, len(body), len(f.content))
 			}
+			have := map[string]bool{}
+			for _, c := range f.chunks {
+				if ok, _ := w.n0.LS.Has(context.Background(), storage.ModeHasChunk, boson.MustParseHexAddress(c)); ok {
+					have[c] = true
+				}
+			}
 			w.mu.Lock()
 			f.cached, f.deleted = true, false
 			f.everCached = true
+			if f.have == nil || !f.local {
+				f.have = have
+			}
 			w.mu.Unlock()
 			r.Count("probe_cached")
 		} else {
@@ -254,12 +277,15 @@ func (w *wnWorld) exec1(phase int, o gosim.Op) {
 		if f == nil || !f.hasRef {
 			return
 		}
+		// even a failing unpin may have unpinned part of the file
+		w.mu.Lock()
+		f.everUnpinned = true
+		w.mu.Unlock()
 		code := w.n0.UnpinAPI(f.ref)
 		r.Logf("unpin f=%d -> %d", f.id, code)
 		if code == 200 {
 			w.mu.Lock()
 			f.pinned = false
-			f.everUnpinned = true
 			w.mu.Unlock()
 		}
 	case "delete":
@@ -572,69 +598,66 @@ func (w *wnWorld) oracleC16() {
 	if n > 0 {
 		w.r.Count("probe_c16_evicted")
 	}
-	// files whose cache entry disappeared in this run were evicted
-	for _, f := range w.sortedFiles() {
-		if f.cached && !f.local && !f.pinned && f.hasRef {
-			_, in1 := d1.GC[f.ref.String()]
-			_, in2 := d2.GC[f.ref.String()]
-			if in1 && !in2 {
-				w.r.Logf("file %d evicted", f.id)
-				w.mu.Lock()
-				f.cached = false
-				f.deleted = true
-				w.mu.Unlock()
-			}
-		}
-	}
 	w.checkC16(d2, "after eviction")
 }
 
+// checkC16: a file that can be collected (it was downloaded, or it was unpinned)
+// and whose root chunk is gone has been evicted: it is then "the deleted file".
+// Every other known file must be complete; nothing unpinned that only deleted
+// files used may remain.
 func (w *wnWorld) checkC16(d *nkDump, when string) {
-	// chunks needed by files the node still knows
+	files := w.sortedFiles()
+	for _, f := range files {
+		if !f.hasRef || f.uncertain || f.deleted || !(f.local || f.cached) {
+			continue
+		}
+		if _, rootPresent := d.Data[f.ref.String()]; !rootPresent && (f.everCached || f.everUnpinned) {
+			w.r.Logf("file %d was evicted", f.id)
+			w.r.Count("probe_c16_eviction_seen")
+			w.mu.Lock()
+			f.local, f.cached, f.deleted = false, false, true
+			w.mu.Unlock()
+		}
+	}
 	needed := map[string]int64{}
-	for _, f := range w.sortedFiles() {
-		if (f.local || f.cached) && !f.deleted {
+	for _, f := range files {
+		if f.uncertain || ((f.local || f.cached) && !f.deleted) {
 			for _, c := range f.chunks {
 				needed[c] = f.id
 			}
 		}
 	}
-	// (1) a known file that was complete stays complete: we only assert it for
-	// local uploads and for cached files that are still registered as cached
-	for _, f := range w.sortedFiles() {
-		if f.deleted || !(f.local || f.cached) {
+	for _, f := range files {
+		if !f.hasRef || f.uncertain {
 			continue
 		}
-		if f.cached && !f.local {
-			if _, still := d.GC[f.ref.String()]; !still && !f.pinned {
-				continue // evicted by a worker run we did not observe
+		if !f.deleted && (f.local || f.cached) {
+			for _, c := range f.chunks {
+				if !f.have[c] {
+					continue
+				}
+				if _, ok := d.Data[c]; !ok {
+					w.r.Violate("other-file-broken", "%s: chunk %s needed by file %d (local=%v cached=%v pinned=%v), which was neither deleted nor evicted, is missing", when, c[:8], f.id, f.local, f.cached, f.pinned)
+				}
 			}
+			w.r.Count("probe_c16_complete_checked")
 		}
-		for _, c := range f.chunks {
-			if _, ok := d.Data[c]; !ok {
-				w.r.Violate("other-file-broken", "%s: chunk %s needed by file %d (local=%v cached=%v pinned=%v) is missing", when, c[:8], f.id, f.local, f.cached, f.pinned)
+		if f.deleted {
+			for _, c := range f.chunks {
+				if _, ok := d.Data[c]; !ok {
+					continue
+				}
+				if _, n := needed[c]; n {
+					w.r.Count("probe_c16_shared_chunk_kept")
+					continue
+				}
+				if d.Pin[c] > 0 {
+					continue
+				}
+				w.r.Violate("leftover-chunk", "%s: chunk %s used only by deleted/evicted file %d is still stored and not pinned", when, c[:8], f.id)
 			}
+			w.r.Count("probe_c16_deleted_checked")
 		}
-	}
-	// (2) nothing of a deleted file remains unless another known file needs it or it is pinned
-	for _, f := range w.sortedFiles() {
-		if !f.deleted {
-			continue
-		}
-		for _, c := range f.chunks {
-			if _, ok := d.Data[c]; !ok {
-				continue
-			}
-			if _, n := needed[c]; n {
-				continue
-			}
-			if d.Pin[c] > 0 {
-				continue
-			}
-			w.r.Count("probe_c16_leftover_checked")
-			w.r.Violate("leftover-chunk", "%s: chunk %s used only by deleted file %d is still stored and not pinned", when, c[:8], f.id)
-		}
-		w.r.Count("probe_c16_deleted_checked")
 	}
 }
 
